@@ -172,6 +172,7 @@ func buildC17(e *engine, p *rt.Package) {
 			}
 		}
 		res.class(fmt.Sprintf("routes:%d", len(rpcs)))
+		warmed := false
 		allHeaders := map[string]bool{}
 		for _, r := range rpcs {
 			for _, h := range r.info.SvcHeaders {
@@ -221,27 +222,45 @@ func buildC17(e *engine, p *rt.Package) {
 			}
 			// isolated execution: every call alone on a fresh server and fresh clients
 			want := make([]c17Result, len(calls))
-			for i, c := range calls {
-				fresh := newServerSel(p, hookFor, map[string]bool{c.svc.Name: true})
-				fresh.reset(respond)
-				fresh.hook = fixedHook
-				want[i] = runCall(newClients(p, fresh), c)
+			isolated := func() {
+				for i, c := range calls {
+					fresh := newServerSel(p, hookFor, map[string]bool{c.svc.Name: true})
+					fresh.reset(respond)
+					fresh.hook = fixedHook
+					want[i] = runCall(newClients(p, fresh), c)
+				}
 			}
 			// concurrent execution through the shared server and clients
 			got := make([]c17Result, len(calls))
-			sem := make(chan struct{}, par)
-			var wg sync.WaitGroup
-			for i, c := range calls {
-				wg.Add(1)
-				sem <- struct{}{}
-				go func(i int, c *c17Call) {
-					defer wg.Done()
-					defer func() { <-sem }()
-					got[i] = runCall(sharedClients, c)
-				}(i, c)
+			concurrent := func() {
+				sem := make(chan struct{}, par)
+				var wg sync.WaitGroup
+				for i, c := range calls {
+					wg.Add(1)
+					sem <- struct{}{}
+					go func(i int, c *c17Call) {
+						defer wg.Done()
+						defer func() { <-sem }()
+						got[i] = runCall(sharedClients, c)
+					}(i, c)
+				}
+				wg.Wait()
+				shared.taken()
 			}
-			wg.Wait()
-			shared.taken()
+			if !warmed {
+				// cold start: the very first requests this package's generated code ever serves arrive together
+				// (whatever it initialises lazily at package level is initialised under contention)
+				warmed = true
+				if par < 8 {
+					par = 8
+				}
+				res.class("cold_start_burst")
+				concurrent()
+				isolated()
+			} else {
+				isolated()
+				concurrent()
+			}
 			res.class(fmt.Sprintf("parallelism:%d", par))
 			if len(distinctRoutes) >= 2 && par >= 4 {
 				var b strings.Builder
